@@ -19,9 +19,12 @@ import (
 	"fmt"
 	"os"
 	"path/filepath"
+	"runtime"
 	"sort"
 	"strconv"
 	"strings"
+	"sync"
+	"sync/atomic"
 	"testing"
 
 	api "k8s.io/api/core/v1"
@@ -44,7 +47,88 @@ var (
 )
 
 func emit(args, impl string) { fmt.Fprintf(out, "C09 %s => %s\n", args, impl) }
-func stat(k string, n int)  { stats[k] += n }
+func stat(k string, n int)   { stats[k] += n }
+
+// caseOut is one computed case: the case line, the verbose text and the histogram keys. The two-world
+// cases (site, carrier, oauth) each build their own environments and share nothing, so the generator
+// computes them on several workers and writes them in generation order (the output does not depend on
+// the number of workers).
+type caseOut struct {
+	args, impl, extra string
+	stats             []string
+}
+
+func (o caseOut) flush() {
+	emit(o.args, o.impl)
+	if verbose && o.extra != "" {
+		out.WriteString(o.extra)
+	}
+	for _, k := range o.stats {
+		stat(k, 1)
+	}
+}
+
+var (
+	batching bool
+	batch    []func() caseOut
+)
+
+const batchChunk = 1024
+
+func submit(job func() caseOut) {
+	if !batching {
+		job().flush()
+		return
+	}
+	batch = append(batch, job)
+	if len(batch) >= batchChunk {
+		flushBatch()
+	}
+}
+
+func flushBatch() {
+	workers := runtime.NumCPU()
+	if workers > 8 {
+		workers = 8
+	}
+	if w, err := strconv.Atoi(os.Getenv("HV_WORKERS")); err == nil && w > 0 {
+		workers = w
+	}
+	res := make([]caseOut, len(batch))
+	var next int64 = -1
+	var wg sync.WaitGroup
+	for w := 0; w < workers; w++ {
+		wg.Add(1)
+		go func() {
+			defer wg.Done()
+			for {
+				i := int(atomic.AddInt64(&next, 1))
+				if i >= len(batch) {
+					return
+				}
+				res[i] = batch[i]()
+			}
+		}()
+	}
+	wg.Wait()
+	for _, o := range res {
+		o.flush()
+	}
+	batch = batch[:0]
+	out.Flush()
+}
+
+func verboseText(w1dump, w0dump string, log []string) string {
+	if !verbose {
+		return ""
+	}
+	var sb strings.Builder
+	fmt.Fprintf(&sb, "# W1 %s\n# W0 %s\n", w1dump, w0dump)
+	for _, l := range log {
+		fmt.Fprintf(&sb, "#   log %s\n", l)
+	}
+	return sb.String()
+}
 
 func hx(s string) string { return "h" + hex.EncodeToString([]byte(s)) }
 func unhx(s string) string {
@@ -642,7 +726,9 @@ func dumpA(env *xnsworld.Env, sc siteCase) (dump, target string) {
 
 var verbose = os.Getenv("HV_VERBOSE") != ""
 
-func emitSite(sc siteCase) {
+func emitSite(sc siteCase) { submit(func() caseOut { return computeSite(sc) }) }
+
+func computeSite(sc siteCase) caseOut {
 	w1 := runSite(sc, true)
 	w0 := runSite(sc, false)
 	var impl string
@@ -651,17 +737,9 @@ func emitSite(sc siteCase) {
 	} else {
 		impl = "t=" + w1.target + ";r=" + b2s(w1.readFor) + ";u=" + b2s(w1.dump != w0.dump) + ";b=" + w1.dyn
 	}
-	emit(sc.args(), impl)
-	if verbose {
-		fmt.Fprintf(out, "# W1 %s\n# W0 %s\n", w1.dump, w0.dump)
-		for _, l := range w1.log {
-			fmt.Fprintf(out, "#   log %s\n", l)
-		}
-	}
-	stat("site", 1)
-	stat("site_"+sc.site+"_"+strings.SplitN(impl, ";", 2)[0], 1)
+	return caseOut{sc.args(), impl, verboseText(w1.dump, w0.dump, w1.log),
+		[]string{"site", "site_" + sc.site + "_" + strings.SplitN(impl, ";", 2)[0]}}
 }
-
 
 // ---------------------------------------------------------------- the oauth site
 
@@ -918,7 +996,9 @@ func dumpOAuth(env *xnsworld.Env) (dump, target string, deny bool) {
 	return sb.String(), target, deny
 }
 
-func emitOAuth(oc oauthCase) {
+func emitOAuth(oc oauthCase) { submit(func() caseOut { return computeOAuth(oc) }) }
+
+func computeOAuth(oc oauthCase) caseOut {
 	w1 := runOAuth(oc, true)
 	w0 := runOAuth(oc, false)
 	var impl string
@@ -927,17 +1007,7 @@ func emitOAuth(oc oauthCase) {
 	} else {
 		impl = "t=" + w1.target + ";d=" + b2s(w1.deny) + ";u=" + b2s(w1.dump != w0.dump) + ";b=" + w1.dyn
 	}
-	emit(oc.args(), impl)
-	if verbose {
-		fmt.Fprintf(out, "# W1 %s\n# W0 %s\n", w1.dump, w0.dump)
-		for _, l := range w1.log {
-			fmt.Fprintf(out, "#   log %s\n", l)
-		}
-	}
-	stat("oauth", 1)
-	stat("oauth_"+strings.SplitN(strings.SplitN(impl, ";", 2)[0], ":", 2)[0], 1)
-	stat("oauth_impl_"+oc.impl, 1)
-	stat("oauth_fu"+oc.fu, 1)
+	st := []string{"oauth", "oauth_" + strings.SplitN(strings.SplitN(impl, ";", 2)[0], ":", 2)[0], "oauth_impl_" + oc.impl, "oauth_fu" + oc.fu}
 	nb, shared := 0, false
 	for _, d := range oc.decls {
 		if d.ns == "b" {
@@ -948,11 +1018,12 @@ func emitOAuth(oc oauthCase) {
 		}
 	}
 	if nb > 0 {
-		stat("oauth_with_foreign_decl", 1)
+		st = append(st, "oauth_with_foreign_decl")
 	}
 	if shared {
-		stat("oauth_foreign_on_protected_host", 1)
+		st = append(st, "oauth_foreign_on_protected_host")
 	}
+	return caseOut{oc.args(), impl, verboseText(w1.dump, w0.dump, w1.log), st}
 }
 
 const (
@@ -995,8 +1066,8 @@ func oauthLists(alphabet []oauthDecl, n int) [][]oauthDecl {
 	return res
 }
 
-// deterministic output needs: namespace a's proxies on DIFFERENT hostnames are one and the same Service
-// (Hosts().Items() is a Go map; which of several proxies of the namespace is taken is not decided)
+// namespace a's proxies on DIFFERENT hostnames are one and the same Service (before 58bb97c the only lists
+// with a deterministic output: Hosts().Items() is a Go map; now a histogram class)
 func oauthDeterministic(ds []oauthDecl) bool {
 	hosts, svcs := map[string]bool{}, map[string]bool{}
 	for _, d := range ds {
@@ -1063,16 +1134,16 @@ func oauthCases(thorough bool, r *gen.Rng) {
 	paths := []string{pOAuth2, pOAuth2Slash, pAuth2, pAuth2 + "//", "/x"}
 	pfxs := []string{"-", "-", hx(pOAuth2), hx(pOAuth2Slash), hx(pAuth2), hx(pAuth2 + "/"), hx("/x"), hx("/")}
 	for i := 0; i < n; i++ {
+		// (until 58bb97c lists with proxies of namespace a behind DIFFERENT Services on different hostnames
+		// were kept out - oauthDeterministic -: the Go map order picked one; the lookup now follows the
+		// sorted hostnames and the model predicts which one is taken)
 		var ds []oauthDecl
-		for {
-			ds = nil
-			for k := r.Range(1, 5); k > 0; k-- {
-				ds = append(ds, oauthDecl{gen.Pick(r, []string{"a", "b", "b"}), gen.Pick(r, []string{"h0", "h0", "h1", "h2"}),
-					gen.Pick(r, paths), gen.Pick(r, []string{"proxy", "proxy2"})})
-			}
-			if oauthDeterministic(ds) {
-				break
-			}
+		for k := r.Range(1, 5); k > 0; k-- {
+			ds = append(ds, oauthDecl{gen.Pick(r, []string{"a", "b", "b"}), gen.Pick(r, []string{"h0", "h0", "h1", "h2"}),
+				gen.Pick(r, paths), gen.Pick(r, []string{"proxy", "proxy2"})})
+		}
+		if !oauthDeterministic(ds) {
+			stat("oauth_several_own_proxies", 1)
 		}
 		emitOAuth(oauthCase{gen.Pick(r, []string{"ing", "svc"}), gen.Pick(r, []string{"p", "p", "p", "p", "h", "x", "u", "n"}),
 			gen.Pick(r, pfxs), ds, gen.Pick(r, settings), gen.Pick(r, []string{"0", "1", "2"})})
@@ -1192,6 +1263,8 @@ func TestC09(t *testing.T) {
 				emitDyn(f[2] == "1", f[3])
 			case f[1] == "site" && len(f) == 7:
 				emitSite(siteCase{f[2], f[3], f[4], f[5], f[6]})
+			case f[1] == "carrier" && len(f) == 7:
+				emitCarrier(carrierCase{f[2], f[3], f[4], f[5], f[6]})
 			case f[1] == "oauth" && len(f) == 8:
 				if ds, ok := parseDeclsTok(f[5]); ok {
 					emitOAuth(oauthCase{f[2], f[3], f[4], ds, f[6], f[7]})
@@ -1202,6 +1275,7 @@ func TestC09(t *testing.T) {
 	}
 	thorough := tier == "thorough"
 	corpus()
+	carrierCorpus()
 
 	// --- buildResourceName / getContentProtocol: exhaustive over a small alphabet of shapes
 	bodies := []string{"n", "a/n", "b/n", "/n", "b/", "a/", "/", "", "a/b/n", "b/n/", "//n", "a//n"}
@@ -1273,7 +1347,12 @@ func TestC09(t *testing.T) {
 			emitDyn(static, string(toks))
 		}
 		for k := 0; k < 4; k++ {
+			var dtoks []byte
 			for tok := range dynValues {
+				dtoks = append(dtoks, tok)
+			}
+			sort.Slice(dtoks, func(i, j int) bool { return dtoks[i] < dtoks[j] })
+			for _, tok := range dtoks {
 				toks := []byte("----")
 				toks[k] = tok
 				emitDyn(static, string(toks))
@@ -1284,7 +1363,10 @@ func TestC09(t *testing.T) {
 
 	// --- reference sites: every site x source x value form x 2^4 bits x static x foreign use
 	r := gen.New(seed)
+	batching = true
 	oauthCases(thorough, r.Fork())
+	// --- the annotated Service reached through a reference whose source is not in its namespace
+	carrierCases(thorough)
 	for _, site := range allSites {
 		for _, src := range siteSources(site) {
 			for _, form := range siteForms(site) {
@@ -1300,6 +1382,8 @@ func TestC09(t *testing.T) {
 			}
 		}
 	}
+	flushBatch()
+	batching = false
 	if getterEnv != nil {
 		getterEnv.Close()
 	}
@@ -1312,4 +1396,3 @@ func TestC09(t *testing.T) {
 		fmt.Fprintf(out, "#stat %s %d\n", k, stats[k])
 	}
 }
-
